@@ -39,6 +39,8 @@ def check(ctx):
         ctx.ob('R1', fi, 'return value', True if ok else (None if not gs else False),
                'squared length (sum of squared Cartesian components over xyz)' if ok else
                f'result is {", ".join(geo_text(g) for g in gs) or "of unknown kind"}, not a squared length')
+    from .C18 import check_real_fft_lengths
+    check_real_fft_lengths(ctx, 'R1', fi, what='mean squared displacement')
     # R2
     check_cumulative(ctx, rule='R2')
     # R3
